@@ -28,6 +28,10 @@ def Kind.isPlain : Kind → Bool
   | .plain => true
   | _ => false
 
+def Kind.isReplay : Kind → Bool
+  | .replay => true
+  | _ => false
+
 inductive Call where
   | subscribe (o : Nat)
   | unsubscribe (o : Nat)
@@ -87,7 +91,7 @@ def pushLast (buf : List Data) (v : Data) : List Data :=
 
 /-- What the observer registered in the inner Subject does with an event (one callback start..return).
   * plain: it is `o`.
-  * behavior / replay (behavior_subject.rs:79-85, replay_subject.rs:86-92): a fresh `Observer` whose callbacks
+  * behavior / replay (behavior_subject.rs:79-85, replay_subject.rs:87-93): a fresh `Observer` whose callbacks
     forward to `o`; its own terminal gate closes first.
   * async (take_last.rs:37-57 + stream_controller.rs sink_error / sink_complete / finalize):
     next buffers; error → `sink_error` (deliver if `o` subscribed, then `finalize`, which calls the
@@ -186,7 +190,7 @@ def register (st : State) (o : Nat) (r : ObsSt) : State :=
   * plain (subject.rs:61-93).
   * behavior (behavior_subject.rs:43-86): stored error → `s.error`, return; stored item → `s.next`, else
     `s.complete`, return; then (still subscribed) hook + forwarder registered, `sbsc` stored.
-  * replay (replay_subject.rs:46-60 and ready_set_go.rs:12): hook, history snapshot, forwarder registered.
+  * replay (replay_subject.rs:46-66 and ready_set_go.rs:12): hook, history snapshot, forwarder registered.
   * async (take_last.rs:27-36): controller (hook = finalize), take_last observer registered. -/
 def subscribeA (k : Kind) (st : State) (o : Nat) : State × Pending :=
   if (st.obs o).seen then (st, {}) else
@@ -218,8 +222,9 @@ def handOver (r : ObsSt) (hist : List Data) (we : Option Nat) (wc : Bool) : ObsS
   | some e => r1.recv (.error e)
   | none => if wc then r1.recv .complete else r1
 
-/-- the rest of `subscribe` after `on_subscribe` returned (replay: hand-over, then `sbsc` is stored) -/
-def subscribeB (k : Kind) (st : State) (o : Nat) (p : Pending) : State :=
+/-- replay_subject.rs:68-94 up to `*sbsc.write().unwrap() = Some(live.clone())`: the hand-over, run after
+    `on_subscribe` returned, then `sbsc` is stored -/
+def subscribeH (k : Kind) (st : State) (o : Nat) (p : Pending) : State :=
   match k with
   | .replay =>
     if p.fresh then
@@ -227,6 +232,30 @@ def subscribeB (k : Kind) (st : State) (o : Nat) (p : Pending) : State :=
         obs := upd st.obs o { (handOver (st.obs o) p.history st.wasError st.wasCompleted) with armed := true } }
     else st
   | _ => st
+
+/-- replay_subject.rs:95-99 `if !s_alive.is_subscribed() { live.unsubscribe(); }`: the subscriber ended during
+    the replay (stored terminal), so the live subscription is taken (`armed`) and its forwarder unsubscribed:
+    callbacks cleared, its fn_on_unsubscribe removes its serial from the map and calls `on_unsubscribe(len)`
+    (subject.rs:74-83).  `o`'s own fn_on_unsubscribe stays in place (it finds `sbsc` already taken).
+    Returns the `len` of that `on_unsubscribe` call, if one is made. -/
+def reap (st : State) (o : Nat) : State × Option Nat :=
+  let r := st.obs o
+  let dead : Bool := !r.alive && r.armed
+  let obsv := match r.inHook with
+    | some s => if dead then st.observers.filter (fun p => p.1 != s) else st.observers
+    | none => st.observers
+  ({ st with
+     observers := obsv
+     obs := upd st.obs o
+       { r with
+         armed := r.armed && r.alive
+         inAlive := r.inAlive && !dead
+         inHook := if dead then none else r.inHook } },
+   if dead && r.inHook.isSome then some obsv.length else none)
+
+/-- the rest of `subscribe` after `on_subscribe` returned (replay only: hand-over, store `sbsc`, reap) -/
+def subscribeB (k : Kind) (st : State) (o : Nat) (p : Pending) : State × Option Nat :=
+  if k.isReplay && p.fresh then reap (subscribeH k st o p) o else (subscribeH k st o p, none)
 
 /-! ### unsubscribe -/
 
@@ -264,7 +293,7 @@ def Call.toEv? : Call → Option Ev
   | _ => none
 
 def step (k : Kind) (st : State) : Call → State
-  | .subscribe o => subscribeB k (subscribeA k st o).1 o (subscribeA k st o).2
+  | .subscribe o => (subscribeB k (subscribeA k st o).1 o (subscribeA k st o).2).1
   | .unsubscribe o => (unsubscribeN k st o).1
   | .next v => emit k st (.next v)
   | .error e => emit k st (.error e)
